@@ -286,6 +286,12 @@ MUTATIONS=(
 "uci-text-separator|FAIL|$BOARD|s/format!(\"{}{}{}\", square_to_string(self.get_source_square())/format!(\"{}-{}{}\", square_to_string(self.get_source_square())/"
 "uci-piece-index-plus-one|FAIL|$LIBRS|s/Piece::from_index(piece_bits as usize).map_or_else/Piece::from_index(piece_bits as usize + 1).map_or_else/"
 "uci-HARMLESS-to-owned|PASS|$BOARD|/fn find_uci/,/Ok(result)/s/MoveDoesNotExist(uci.to_string())/MoveDoesNotExist(uci.to_owned())/"
+"uci-all-rollback-not-reversed|FAIL|$BOARD|s/for mv in potential_unmake.iter().rev() {/for mv in potential_unmake.iter() {/"
+"uci-all-rollback-makes|FAIL|$BOARD|s/^                        self.unmake(\*mv);$/                        self.make(*mv);/"
+"uci-all-no-make|FAIL|$BOARD|/fn make_all_uci/,/^    }/s/^                    self.make(mv);$//"
+"uci-all-no-push|FAIL|$BOARD|s/^                    potential_unmake.push(mv);$//"
+"uci-all-error-swallowed|FAIL|$BOARD|/fn make_all_uci/,/^    }/s/return Err(error);/return Ok(());/"
+"uci-all-HARMLESS-rename-local|PASS|$BOARD|s/potential_unmake/made_so_far/g"
 # ---- `SimpleHeuristic` (C11; the piece-square tables are opaque)
 "simple-queen-value|FAIL|$SIMPLE|s/const QUEEN_VALUE: u32 = 900;/const QUEEN_VALUE: u32 = 950;/"
 "simple-stage-le-to-lt|FAIL|$SIMPLE|s/(board.white.knights() | board.white.bishops()).count_ones() <= 1/(board.white.knights() | board.white.bishops()).count_ones() < 1/"
